@@ -12,7 +12,7 @@ from .common import (Case, HELD, VIOLATED, INCONCLUSIVE, TERM, bad_outcome, file
 ID = "C16"
 LEVEL = "exploration"
 BUILDS = ["rel"]
-BUDGET_S = {"quick": 150, "thorough": 1800}
+BUDGET_S = {"quick": 600, "thorough": 1800}
 EXHAUSTIVE = {"quick": "registered suffix x file-name shape x -E mapping kind", "thorough": "registered suffix x file-name shape x -E mapping kind"}
 RULE = ("Every registered suffix x name shape {x.ext, x.y.ext, dir.with.dots/x.ext, directory named like another extension, "
         ".x.ext via a diff, a file renamed in the diff from a name of another / of no grammar, upper/lower-case variant, x.ext.bak, "
